@@ -469,9 +469,9 @@ theorem StepRel_time (io : IOStatic) (F G : ResFn) (root : Root) (hroot : RootSo
   have hnl := io.M.L.nX_lt_len
   have ht1 : s1.sv.getD io.M.L.nX 0 = s.sv.getD io.M.L.nX 0 := by
     have e1 : s1.sv.getD io.M.L.nX 0 = (s1.sv.take (io.M.L.nX + 1)).getD io.M.L.nX 0 := by
-      simp [List.getD_eq_getElem?_getD, List.getElem?_take]
+      simp [List.getD_eq_getElem?_getD]
     have e2 : s.sv.getD io.M.L.nX 0 = (s.sv.take (io.M.L.nX + 1)).getD io.M.L.nX 0 := by
-      simp [List.getD_eq_getElem?_getD, List.getElem?_take]
+      simp [List.getD_eq_getElem?_getD]
     rw [e1, e2, htk]
   refine ⟨?_, hl'⟩
   rw [getTime_raw _ _ hwf, getTime_raw _ _ hwf]
@@ -670,5 +670,89 @@ theorem scaleSubst_encode (L : Layout) (tab : NomTable) (v : Vec) (hv : v.length
       simp [encode, List.getD_eq_getElem?_getD, List.getElem?_map, List.getElem?_range h2]
     rw [he, div_mul_cancel₀ _ (hν i h2)]
     simp [List.getD_eq_getElem?_getD, List.getElem?_eq_getElem h2]
+
+/-! ### concrete oracles that honour the contracts (used by the non-vacuity examples) -/
+
+/-- a root finder that proposes `cand` and answers only if it is a root -/
+def checkedRoot (cand : Vec) : Root := fun r g =>
+  if cand.length = g.length ∧ (r cand).all (fun v => v == 0) = true then some cand else none
+
+theorem checkedRoot_sound (cand : Vec) : RootSound (checkedRoot cand) := by
+  intro r g x h
+  unfold checkedRoot at h
+  split at h
+  · rename_i hc
+    injection h with h
+    subst h
+    refine ⟨hc.1, fun v hv => ?_⟩
+    have := List.all_eq_true.1 hc.2 v hv
+    simpa using this
+  · cases h
+
+def boundOkB (b : VarBound) (x : Rat) : Bool :=
+  (match b.lo with | some lo => decide (lo ≤ x) | none => true)
+  && (match b.hi with | some hi => decide (x ≤ hi) | none => true)
+
+def boundsOkB (bs : List VarBound) (X : Vec) : Bool :=
+  (List.range bs.length).all fun i => boundOkB (bs.getD i { lo := none, hi := none }) (X.getD i 0)
+
+/-- an NLP solver that proposes `cand` and answers only if it is feasible -/
+def checkedInit (cand : Vec) : InitSolver := fun g bs x0 =>
+  if cand.length = x0.length ∧ (g cand).all (fun v => v == 0) = true ∧ boundsOkB bs cand = true
+  then some cand else none
+
+theorem checkedInit_sound (cand : Vec) : InitSound (checkedInit cand) := by
+  intro g bs x0 x h
+  unfold checkedInit at h
+  split at h
+  · rename_i hc
+    injection h with h
+    subst h
+    refine ⟨hc.1, fun v hv => ?_, ?_⟩
+    · have := List.all_eq_true.1 hc.2.1 v hv
+      simpa using this
+    · intro i b hb
+      have hi : i < bs.length := (List.getElem?_eq_some_iff.1 hb).1
+      have := List.all_eq_true.1 hc.2.2 i (List.mem_range.2 hi)
+      rw [List.getD_eq_getElem?_getD, hb] at this
+      simp only [Option.getD_some, boundOkB, Bool.and_eq_true] at this
+      refine ⟨fun lo hlo => ?_, fun hi' hhi => ?_⟩
+      · have h1 := this.1; rw [hlo] at h1; simpa using h1
+      · have h2 := this.2; rw [hhi] at h2; simpa using h2
+  · cases h
+
+theorem polyRes_length (qs : List Poly) (e : Env) : (polyRes qs e).length = qs.length := by
+  simp [polyRes]
+
+/-- a root finder that tries a list of candidates and answers with the first that is a root -/
+def checkedRoots (cands : List Vec) : Root := fun r g =>
+  cands.find? fun c => decide (c.length = g.length) && (r c).all (fun v => v == 0)
+
+theorem checkedRoots_sound (cands : List Vec) : RootSound (checkedRoots cands) := by
+  intro r g x h
+  have := List.find?_some h
+  simp only [Bool.and_eq_true, decide_eq_true_eq] at this
+  refine ⟨this.1, fun v hv => ?_⟩
+  have := List.all_eq_true.1 this.2 v hv
+  simpa using this
+
+/-! ### the concrete instance used by the non-vacuity examples of `Props/C09.lean` -/
+
+def exM : Static :=
+  { L := { nS := 1, nA := 1, nE := 0, nU := 1, nP := 1 }, nom := [(0, 10), (1, 2)], p := [1/2] }
+def exF : ResFn :=
+  polyRes [[(1, [Slot.d 0]), (1, [Slot.x 0, Slot.p 0]), (-1, [Slot.u 0])],
+           [(1, [Slot.a 0]), (-2, [Slot.x 0]), (-1/4, [Slot.x 0, Slot.x 0])]]
+def exG : ResFn := fun _ => []
+def exS : Sim := { sv := [1/10, 9/8, 0, 0, 3, 1/2], dt := 1 }
+def exCands : List Vec := [[4/15, 32/9, 5/3], [17/45, 901/162, 10/9]]
+def exSer : Series := { idx := 4, neg := false, vals := [some 7, some 3, some 3, none] }
+def exIO : IOStatic :=
+  { M := exM
+    timesSec := [-1, 0, 1, 2]
+    series := [exSer]
+    outs := [(0, false), (1, true)] }
+def exSt : IOSim := { sim := exS, times := [0], out := [[1], [-9/4]] }
+
 
 end RtcVerif.C09
